@@ -85,12 +85,37 @@ def run(chk: core.Check, replay=None) -> None:
                 ok = not flagged
             pairs.append({"tid": o["tid"], "ev": "Pair", "clause": "C15.ZerosAccessor", "ok": bool(ok)})
             chk.stratum("zeros_accessor")
+    # ---- requests that END at an event: for event rows found above, the same shot is fired with extra data to a range that
+    #      makes the detecting iteration the LAST one of the loop, with a step far beyond the range (so that the closing row is
+    #      appended right after it) and with an ordinary step: the event is reported once, the closing row is unflagged
+    import copy
+    extra_scs, tid2 = [], 900000
+    for o in outs:
+        if len(extra_scs) >= (60 if thorough else 8) or o["outcome"] != "ok" or not o["sc"].get("extra"):
+            continue
+        ms = (o["sc"].get("cfg") or {}).get("max_calc_step_size_feet", 0.5)
+        for ev_row in [r for r in o["rows"] if int(r.flag) & 7 and not int(r.flag) & 8][:2]:
+            xe = ev_row.distance.raw_value / 12.0
+            if xe <= 2 * ms:
+                continue
+            for step_ft in (3 * xe, xe / 3.0):
+                tid2 += 1
+                sc2 = copy.deepcopy(o["sc"])
+                sc2.update({"range_ft": xe - 0.25 * ms, "step_ft": step_ft, "unit": "Foot", "step_unit": "Foot", "extra": True, "tid": tid2})
+                sc2.pop("time_step", None)
+                extra_scs.append(sc2)
+    outs_end = scen.run_batch(extra_scs)
+    for o in outs_end:
+        chk.count(1, ("ends_at_event", o["tid"]))
+        if any(l["ev"] == "End" and l.get("tail") for l in o.get("lines", [])):
+            chk.stratum("request_ends_at_an_event_with_closing_row")
+    outs = outs + outs_end
     loopsuite.validate(chk, "C15", outs, pairs)
     o = next((x for x in outs if "U" in x["summ"].get("flags_seen", [])), outs[0])
     chk.sample({"scenario": o["sc"], "flag_lines": [l for l in o["lines"] if l["ev"] == "Iter" and set(l["fl"]) & {"U", "D", "M"}][:3]})
     chk.sample({"tlc_behaviour": {k: v for k, v in behs[1].items() if k != "consts"}})
     chk.require_strata(["obj_flag_U", "obj_flag_D", "obj_flag_M", "real_flag_U", "real_flag_D", "real_flag_M", "inclined_sight_line",
-                        "zeros_accessor", "mode_barrel_below", "mode_muzzle_above", "mode_on_line", "mode_muzzle_above_barrel_below"])
+                        "zeros_accessor", "request_ends_at_an_event_with_closing_row", "mode_barrel_below", "mode_muzzle_above", "mode_on_line", "mode_muzzle_above_barrel_below"])
     chk.exhaustive = False
     chk.rule.append("design: Integrator.tla C15_* over every side/sup sequence of the bounded model for each muzzle/barrel configuration; "
                     "spec->code: TLC behaviours replayed into the real _TrajectoryDataFilter (flags and seen_zero after every call); "
